@@ -194,6 +194,22 @@ def round_trip(sx, B):
         if not out.exists():
             return
         sx.cover("written")
+        # history: the same process has read another topology before whose molecule type has the same name and as many atoms but
+        # other residues - nothing of it may show up in what is read now
+        natoms = 0
+        sec = None
+        for line in out.read_text().split("\n"):
+            line = line.split(";")[0].strip()
+            if line.startswith("["):
+                sec = line.strip("[] ")
+            elif line and sec == "atoms" and not line.startswith("#"):
+                natoms += 1
+        prime = ["[ moleculetype ]", "mol 1", "[ atoms ]"] + ["%d TZ 1 ZZ z%d %d 0.0 1.0" % (i + 1, i + 1, i + 1) for i in range(natoms)]
+        if natoms > 1:
+            prime += ["[ bonds ]"] + ["%d %d 1 0.3 100" % (i + 1, i + 2) for i in range(natoms - 1)]
+        (Path(d) / "prime.itp").write_text("\n".join(prime) + "\n")
+        (Path(d) / "prime.top").write_text('#include "prime.itp"\n[ system ]\nt\n[ molecules ]\nmol 1\n')
+        Topology.from_gmx_topfile(str(Path(d) / "prime.top"), "prime")
         (Path(d) / "sys.top").write_text('#include "out.itp"\n[ system ]\nt\n[ molecules ]\nmol 1\n')
         top = Topology.from_gmx_topfile(str(Path(d) / "sys.top"), "sys")
         ffi = vermouth.forcefield.ForceField(name="x")
